@@ -274,6 +274,13 @@ func prelude(bv bool, useStr bool) string {
 	b.WriteString("(declare-datatypes ((Ptr 0)) (((mk-ptr (obj Int) (path Path)))))\n")
 	b.WriteString("(define-fun nilptr () Ptr (mk-ptr 0 root))\n")
 	fmt.Fprintf(&b, "(declare-datatypes ((Slice 0)) (((mk-slice (s_arr Ptr) (s_off %s) (s_len %s) (s_cap %s)))))\n", idx, idx, idx)
+	if bv {
+		b.WriteString("(declare-fun sl.idx (Slice (_ BitVec 64)) (_ BitVec 64))\n")
+		b.WriteString("(assert (forall ((s Slice) (i (_ BitVec 64))) (! (= (sl.idx s i) (bvadd (s_off s) i)) :pattern ((sl.idx s i)))))\n")
+	} else {
+		b.WriteString("(declare-fun sl.idx (Slice Int) Int)\n")
+		b.WriteString("(assert (forall ((s Slice) (i Int)) (! (= (sl.idx s i) (+ (s_off s) i)) :pattern ((sl.idx s i)))))\n")
+	}
 	b.WriteString("(declare-datatypes ((Iface 0)) (((mk-iface (i_tag Int) (i_val Ptr)))))\n")
 	b.WriteString("(define-fun niliface () Iface (mk-iface 0 nilptr))\n")
 	b.WriteString("(declare-sort Str 0)\n")
